@@ -13,6 +13,7 @@ ALPHABET = ["add", "addi", "lw", "sw", "lb", "sb", "beq", "blt", "jal", "jalr", 
 REDUCED = ["add", "lw", "sw", "beq", "jal", "jalr", "ecall"]
 ECALL_SITE_BOUND = 16  # decisions per activation of ECALL.process_ecall (>= 3 string characters)
 K_DEFAULT = 12
+MAX_DYNAMIC_ECALLS = 2  # per path (each ecall forks over the whole service table)
 
 
 def k_for(L):
@@ -79,6 +80,7 @@ class Run:
         self.fault = None
         self.steps = 0
         self.nonterminating = False
+        self.ecalls = 0
         self.per_step = []  # five-stage: (retired address | None, cycles, stalls, flushes) after each step
         self.ctx = None
 
@@ -131,6 +133,10 @@ def run_five(e, c, max_cycles, on_step=None, K=None):
             r.retired.append(a)
             if K is not None and len(r.retired) > K:
                 raise PathCut("more than %d executed instructions" % K)
+            if pr.instruction.mnemonic == "ecall":
+                r.ecalls += 1
+                if r.ecalls > MAX_DYNAMIC_ECALLS:
+                    raise PathCut("more than %d executed ecalls" % MAX_DYNAMIC_ECALLS)
         r.per_step.append((a, pm.cycles, pm.stalls, pm.flushes))
         if on_step is not None:
             on_step(sim, r)
